@@ -154,6 +154,7 @@ class hid:
             self._log.debug("connection limit reached")
             self._reconnect_count = 0
             self._reconnect_task = None
+            self.connection_status_callback._invoke("failed")
             return
         await asyncio.sleep(self._reconnect_interval)
         self._reconnect_task = None
